@@ -204,6 +204,19 @@ func callConstOperands(c ssa.CallCommon) ([]string, map[int]ssa.Value) {
 }
 
 func (g *Gen) lookupSpecByKey(v *FnVC, key string) *FuncSpec {
+	if i := strings.Index(key, "."); i > 0 {
+		short := key[i+1:]
+		if v.sf != nil {
+			if s, ok := v.sf.Funcs[short]; ok {
+				return s
+			}
+		}
+		for _, sf := range g.specFiles {
+			if s, ok := sf.Funcs[short]; ok && s.Extern {
+				return s
+			}
+		}
+	}
 	if v.sf != nil {
 		if s, ok := v.sf.Funcs[key]; ok {
 			return s
